@@ -3,6 +3,7 @@
 # usage: run-fuzz.sh <target> <property> <runs> <seed>
 # A crash artifact is converted into a replay file; exit 1 with VIOLATION if it reproduces, 2 on infrastructure trouble.
 T="$1"; PROP="$2"; RUNS="${3:-200000}"; SEED="${4:-1}"
+[ "$T" = fuzz_evtx ] && export VP_FUZZ_MAXLEN=${VP_FUZZ_MAXLEN:-70000}
 cd /verif/harness/fuzz || exit 2
 export CARGO_NET_OFFLINE=true
 export RUSTFLAGS="--cfg s4_verif"
@@ -14,14 +15,17 @@ W=$(mktemp -d /dev/shm/vpfuzz.XXXXXX)
 mkdir -p "$W/corpus" "$W/art" "$W/tmp"
 export VP_FZ_DIR="$W/tmp"
 cp corpus-seed/$T/* "$W/corpus/" 2>/dev/null
-/verif/harness/target-fuzz/x86_64-unknown-linux-gnu/release/$T "$W/corpus" -runs=$RUNS -seed=$SEED -max_len=4096 -len_control=0 -timeout=10 -artifact_prefix="$W/art/" >"$W/log" 2>&1
+/verif/harness/target-fuzz/x86_64-unknown-linux-gnu/release/$T "$W/corpus" -runs=$RUNS -seed=$SEED -max_len=${VP_FUZZ_MAXLEN:-4096} -len_control=0 -timeout=10 -rss_limit_mb=12288 -malloc_limit_mb=1000000 -artifact_prefix="$W/art/" >"$W/log" 2>&1
 rc=$?
 execs=$(grep -o "Done [0-9]* runs" "$W/log" | grep -o "[0-9]*" | head -1)
 cov=$(grep -o "cov: [0-9]*" "$W/log" | tail -1)
-echo "[$PROP] fuzz target=$T runs=${execs:-?} ${cov} corpus=$(ls "$W/corpus" | wc -l) exit=$rc"
+excl=""; [ -f "$W/tmp/excluded-f27" ] && excl=" excluded(known finding F27)=$(wc -c < "$W/tmp/excluded-f27")"; [ -f "$W/tmp/excluded-f28" ] && excl="$excl excluded(known finding F28)=$(wc -c < "$W/tmp/excluded-f28")"
+echo "[$PROP] fuzz target=$T runs=${execs:-?} ${cov} corpus=$(ls "$W/corpus" | wc -l) exit=$rc$excl"
 status=0
 for a in "$W"/art/*; do
   [ -f "$a" ] || continue
+  # resident memory above the 12 GiB budget is a resource report, not a property violation
+  case "$(basename "$a")" in oom-*) echo "[$PROP] libFuzzer rss limit reached on $(basename "$a"): inconclusive"; [ $status -eq 0 ] && status=2; continue;; esac
   mkdir -p /verif/replays
   out="/verif/replays/$PROP-fuzz-$T-$(basename "$a")"
   cp "$a" "$out"
